@@ -7,23 +7,22 @@ use dicom_ul::association::{AsyncPDataWriter, PDataWriter};
 use std::io::Write;
 use tokio::io::AsyncWrite;
 
-/// transport whose behaviour per call is chosen by the solver: Ready(Ok(len)), Ready(Ok(1)), or Pending (at most `pend` times)
+/// transport with a scripted behaviour per call (concrete per harness instance, DESIGN §1.2 rule 3):
+/// 0 = takes everything, 1 = takes one byte, 2 = not ready (Pending); after the script ends it takes everything.
 struct T {
     buf: [u8; 64],
     n: usize,
-    pend_left: u8,
-    calls: u8,
+    script: [u8; 6],
+    calls: usize,
 }
 impl AsyncWrite for T {
     fn poll_write(mut self: Pin<&mut Self>, _cx: &mut Context<'_>, data: &[u8]) -> Poll<std::io::Result<usize>> {
+        let act = if self.calls < 6 { self.script[self.calls] } else { 0 };
         self.calls += 1;
-        if self.pend_left > 0 && kani::any() {
-            self.pend_left -= 1;
+        if act == 2 {
             return Poll::Pending;
         }
-        // partial write: the transport takes either everything or just the first byte (two extremes of "1 <= k <= len")
-        let k: usize = if kani::any() { data.len() } else { 1 };
-        kani::assume(data.len() >= 1);
+        let k: usize = if act == 1 { 1 } else { data.len() };
         let at = self.n;
         if at + k > 64 { panic!("transport buffer too small"); }
         let mut i = 0;
@@ -56,9 +55,9 @@ fn write_all_async(w: &mut AsyncPDataWriter<&mut T>, mut data: &[u8], cx: &mut C
 }
 
 macro_rules! async_vs_sync {
-    ($name:ident, $m:expr, $a:expr, $b:expr, $pend:expr) => {
+    ($name:ident, $m:expr, $a:expr, $b:expr, $script:expr) => {
         #[kani::proof]
-        #[kani::unwind(20)]
+        #[kani::unwind(26)]
         fn $name() {
             let pc: u8 = kani::any();
             let data: [u8; 12] = kani::any();
@@ -72,42 +71,39 @@ macro_rules! async_vs_sync {
                 core::mem::forget((r1, r2));
                 core::mem::forget(w);          // no finish: compare what was sent so far
             }
-            let mut t = T { buf: [0u8; 64], n: 0, pend_left: $pend, calls: 0 };
+            let mut t = T { buf: [0u8; 64], n: 0, script: $script, calls: 0 };
             let waker = Waker::noop();
             let mut cx = Context::from_waker(&waker);
             let ok;
             {
                 let mut w = AsyncPDataWriter::verif_new(&mut t, pc, $m);
-                let ok1 = write_all_async(&mut w, &data[..$a], &mut cx, 8);
-                let ok2 = ok1 && write_all_async(&mut w, &data[$a..$a + $b], &mut cx, 8);
+                let ok1 = write_all_async(&mut w, &data[..$a], &mut cx, 12);
+                let ok2 = ok1 && write_all_async(&mut w, &data[$a..$a + $b], &mut cx, 12);
                 ok = ok1 && ok2;
                 core::mem::forget(w);
             }
             assert!(ok, "poll_write reported Ok(0) / an error on a working transport");
-            // the transport saw a prefix-compatible byte stream: same bytes as the synchronous writer when no poll is left pending
-            if t.pend_left == $pend || t.n == sink.n {
-                assert!(t.n == sink.n, "asynchronous writer sent a different number of bytes");
-                let mut i = 0;
-                while i < 64 {
-                    if i < sink.n { assert!(t.buf[i] == sink.buf[i], "asynchronous writer sent different bytes"); }
-                    i += 1;
-                }
-            } else {
-                // some poll stayed pending within the bound: what was sent so far must be a prefix of the synchronous bytes
-                assert!(t.n <= sink.n);
-                let mut i = 0;
-                while i < 64 {
-                    if i < t.n { assert!(t.buf[i] == sink.buf[i], "asynchronous writer sent different bytes"); }
-                    i += 1;
-                }
+            // every scripted schedule ends within the poll bound, so the transport must have seen exactly the synchronous bytes
+            assert!(t.n == sink.n, "asynchronous writer sent a different number of bytes than the synchronous writer");
+            let mut i = 0;
+            while i < 64 {
+                if i < sink.n { assert!(t.buf[i] == sink.buf[i], "asynchronous writer sent different bytes"); }
+                i += 1;
             }
-            kani::cover!(t.calls >= 2, "transport took the PDU in several partial writes");
+            // PDU length field of the first PDU never exceeds the maximum
+            if t.n >= 6 {
+                let l = u32::from_be_bytes([t.buf[2], t.buf[3], t.buf[4], t.buf[5]]);
+                assert!(l <= $m, "PDU length exceeds the maximum");
+            }
             kani::cover!(t.n > 0, "something was sent");
         }
     };
 }
-async_vs_sync!(c26_async_m10_a4_b2_p0, 10, 4, 2, 0);     // buffer exactly full, then a non-empty write
-async_vs_sync!(c26_async_m10_a5_b1_p0, 10, 5, 1, 0);
-async_vs_sync!(c26_async_m10_a5_b1_p1, 10, 5, 1, 1);     // one Pending allowed anywhere
-async_vs_sync!(c26_async_m10_a4_b2_p1, 10, 4, 2, 1);
-async_vs_sync!(c26_async_m7_a1_b2_p1, 7, 1, 2, 1);
+// max 10 => 4 payload bytes per PDU; max 8 => 2 payload bytes per PDU
+async_vs_sync!(c26_async_m10_a4_b2_full, 10, 4, 2, [0, 0, 0, 0, 0, 0]);       // buffer exactly full, then a non-empty write
+async_vs_sync!(c26_async_m10_a5_b1_full, 10, 5, 1, [0, 0, 0, 0, 0, 0]);
+async_vs_sync!(c26_async_m10_a4_b2_pend, 10, 4, 2, [2, 0, 2, 0, 0, 0]);       // Pending while the full buffer is sent
+async_vs_sync!(c26_async_m10_a4_b2_one, 10, 4, 2, [1, 2, 1, 0, 0, 0]);        // partial writes and Pending interleaved
+async_vs_sync!(c26_async_m8_a2_b3_full, 8, 2, 3, [0, 0, 0, 0, 0, 0]);         // exactly full, then a chunk larger than one PDU payload
+async_vs_sync!(c26_async_m8_a2_b3_pend, 8, 2, 3, [2, 1, 2, 0, 0, 0]);
+async_vs_sync!(c26_async_m10_a9_b3_one, 10, 9, 3, [1, 1, 2, 0, 1, 0]);
